@@ -195,3 +195,13 @@ Theorem C03_merged_guard_refuted :
     GuardMerge.run_each _ (flat_map (GuardMerge.expand _) gs) s <> GuardMerge.run_merged _ gs s.
 Proof. exact GuardMerge.merge_refuted. Qed.
 Print Assumptions C03_merged_guard_refuted.
+
+(* The shape of the merge test in ASTSimplifyMapper.map_Block, read from the tree by harness/tr/c06.py: it checks
+   only on the repaired tree (fix 5e02bf5: the first conditional assigns no variable of the condition, which makes
+   every merged group `stable` in the sense of C03_merged_guard_sound_if_stable when a statement's effect on the
+   guard is through the variables it assigns).  On the unrepaired shape this does not type-check and the check
+   reports the corpus witness of C03_merged_guard_refuted as the failing input. *)
+From Dagrt Require GenC06.
+Theorem C03_merge_tests_guard_stability : GenC06.simplify_merge_guard_stable = true.
+Proof. exact eq_refl. Qed.
+Print Assumptions C03_merge_tests_guard_stability.
